@@ -22,3 +22,15 @@ Theorem C14_insertion_keeps_wf2 `{Sig} : forall E n ks e nds ts c w cnt w' cnt',
   run E (insert_vertices_on_edge n ks e nds ts) c w cnt = (Done tt, w', cnt') -> wf2 n w'.
 Proof. intros E n ks e nds ts c w cnt w' cnt'. exact (insert_vertices_wf E n w ks e nds ts c cnt w' cnt'). Qed.
 Print Assumptions C14_insertion_keeps_wf2.
+
+(** The single-vertex entry point [insert_vertex_on_edge] (its own code path, spare darts given as a pair): on every
+    well-formed 2-map, for every in-use edge dart that has an end point on each side (not both 1-free and 2-free),
+    every in-use first spare dart and, when the edge has two darts, every in-use second spare dart, an insertion that
+    terminates normally leaves a well-formed 2-map.  No distinctness premise: the kernel's own freeness test of the
+    spare darts (part of the program) is what separates them from the edge's darts in the proof. *)
+Theorem C14_single_insertion_keeps_wf2 `{Sig} : forall E n ks e nd1 nd2 t c w cnt w' cnt',
+  wf2 n w -> okd n w e -> okd n w nd1 -> (beta w 2 e <> 0 -> okd n w nd2) ->
+  ~ (beta w 1 e = 0 /\ beta w 2 e = 0) ->
+  run E (insert_vertex_on_edge n ks e nd1 nd2 t) c w cnt = (Done tt, w', cnt') -> wf2 n w'.
+Proof. intros E n ks e nd1 nd2 t c w cnt w' cnt'. exact (insert_vertex_wf E n w ks e nd1 nd2 t c cnt w' cnt'). Qed.
+Print Assumptions C14_single_insertion_keeps_wf2.
